@@ -466,6 +466,16 @@ def eval_topology_sample(sample):
             c = _base(sample)
             c.update(what="consensus", route=route, th=th)
             out.append(_result(sc, c, nt))
+    ws = sample.get("weights") or []
+    if any(w is not None for w in ws):
+        # weights present but switched off, on the routes that honour the switch (the TreeArray
+        # routes do not forward it: recorded in scope `corner`)
+        c = _base(sample)
+        c.update(what="freq", route=["TreeList.split_distribution", "incremental"][i % 2], use_tree_weights=False)
+        out.append(_result(sc, c, nt))
+        c = _base(sample)
+        c.update(what="consensus", route="SplitDistribution.consensus_tree", th=THRESHOLDS[i % len(THRESHOLDS)], use_tree_weights=False)
+        out.append(_result(sc, c, nt))
     for route in ("TreeArray.product", "TreeArray.sum", "TreeList.product", "TreeList.sum"):
         c = _base(sample)
         c.update(what="mcct", route=route)
